@@ -10,7 +10,7 @@ policy model."""
 import itertools
 
 from sim.canon import Log, canon_row, canon_rows
-from sim.core import outcome
+from sim.core import outcome, draw_config
 from sim.loader import load_petl
 
 PROP = 'C19'
@@ -215,6 +215,15 @@ def budget(tier):
 
 
 def gen_case(rng, tier, g):
+    case = _gen_case(rng, tier, g)
+    # the host application's petl.config / logging set-up must not matter
+    cfg = draw_config(rng, 0.12, exclude=('failonerror',))
+    if cfg:
+        case['config'] = cfg
+    return case
+
+
+def _gen_case(rng, tier, g):
     form = FORMS[g % len(FORMS)]
     nmax = 3 if form in TWO_FIELD else 6
     n = rng.randint(0, nmax)
